@@ -54,10 +54,11 @@ structure LoopState where
 
 def LoopState.emit (ls : LoopState) (e : TEv) : LoopState := { ls with trace := e :: ls.trace }
 
-/-- one `ctx.Err()` call -/
+/-- one `if ctx.Err() != nil { return … ctx.Err() }` site: one call, and a second one to build the
+    returned error when the first reports cancellation -/
 def poll (rc : RunCfg) (ls : LoopState) : Bool × LoopState :=
   let c := ls.es.cancelled || (match rc.cancelAt with | some k => decide (k ≤ ls.polls) | none => false)
-  (c, { ls with polls := ls.polls + 1 })
+  (c, { ls with polls := ls.polls + (if c then 2 else 1) })
 
 def isRetracted (es : EState) (e : RuleEntry) : Bool := es.retracted.contains e.rule.name
 
@@ -122,8 +123,13 @@ def runLoop (rc : RunCfg) (c : Cfg) (entries : List RuleEntry) : Nat → Nat →
     let ls := { ls with passes := ls.passes + 1 }
     match evalPass rc c (cycle + 1) ord ls [] with
     | (some out, ls, _) => (out, ls)
-    | (none, ls, []) => (.ok, ls)
-    | (none, ls, r0 :: rs) =>
+    | (none, ls, acc) =>
+      -- the context is checked once more after the pass
+      let (cancelled, ls) := poll rc ls
+      if cancelled then (.ctx, ls) else
+      match acc with
+      | [] => (.ok, ls)
+      | r0 :: rs =>
       let cycle := cycle + 1
       if cycle > rc.maxCycle then (.cycleLimit, ls) else
       let runner := pickRunner r0 rs
